@@ -100,6 +100,13 @@ ChooseArraysMid ==
            reg(k) == Arr(<<"x", "y">>, <<2, 4>>, <<2, 6>>, k)
        IN in' = [NoIn EXCEPT !.arrs = IF pos = 2 THEN <<reg(1), odd, reg(3)>> ELSE <<reg(1), reg(2), odd>>]
 
+\* single-label axes: equal or different labels (a length-1 axis is an axis like any other: its label must match or be aligned)
+ChooseArraysSingle ==
+  /\ ph = 0 /\ ph' = 1 /\ out' = out
+  /\ \E x2 \in {<<2>>, <<4>>} : \E two \in BOOLEAN : \E y2 \in {<<2, 6>>, <<6, 2>>} :
+       in' = [NoIn EXCEPT !.arrs = IF two THEN <<Arr(<<"x", "y">>, <<2>>, <<2, 6>>, 1), Arr(<<"x", "y">>, x2, y2, 2)>>
+                                   ELSE <<Arr(<<"x">>, <<2>>, <<>>, 1), Arr(<<"x">>, x2, <<>>, 2)>>]
+
 ChooseOp ==
   /\ ph = 1 /\ ph' = 2 /\ out' = out
   /\ \E al \in BOOLEAN : \E so \in BOOLEAN :
@@ -114,7 +121,7 @@ Apply ==
             THEN Stack(in.arrs, in.newdim, in.keys, in.align, in.sort)
             ELSE Concat(in.arrs, in.d, in.align, in.sort)
   /\ (Emit => PrintT(ToJson([op |-> in.op, in |-> in, out |-> out'])))
-Next == ChooseArrays \/ ChooseArrays3 \/ ChooseArraysMid \/ ChooseOp \/ Apply
+Next == ChooseArrays \/ ChooseArrays3 \/ ChooseArraysMid \/ ChooseArraysSingle \/ ChooseOp \/ Apply
 Spec == Init /\ [][Next]_vars
 
 (* ---------- theorems ---------- *)
